@@ -115,6 +115,62 @@ def many_defers_cases(r):
     return out
 
 
+def main_thread_cases(r):
+    """scripts for the MAIN thread that return from main() with live scopes (the process-exit path of the library)"""
+    out = []
+    for k in range(6):
+        lines, live, nid = [], [], 0
+        for _ in range(r.randrange(2, 7)):
+            lines.append("sc 0 begin %d" % r.choice([0, 16, 1000])); live.append(nid); nid += 1
+            for _ in range(r.choice([0, 1, 2, 5, 9])):
+                lines.append("sc 0 defer %d %d" % (r.choice(live), r.randrange(1000)))
+            if r.random() < 0.4:
+                lines.append("sc 0 alloc %d %d" % (r.choice(live), r.choice([1, 24, 300])))
+        if k % 2 and len(live) > 1:
+            lines.append("sc 0 end %d" % live[-1]); live.pop()
+        lines += ["sc 0 last", "sc 0 exit", "sc end"]
+        out.append(lines)
+    return out
+
+
+def main_thread_exit(ctx):
+    """the same harness with the script on the main thread, one process per case, built as the tests build the library
+    and as a release build (-DNDEBUG): the events printed while the process exits must be the model's"""
+    import subprocess
+    cases = main_thread_cases(ctx.rng)
+    model = ctx.run_model(cases)
+    for tag, extra in (("mainthr", ["-DC02_MAIN_THREAD"]), ("mainthr_ndebug", ["-DC02_MAIN_THREAD", "-DNDEBUG"])):
+        exe = ctx.build_harness("c02", tag=tag, extra=extra)
+        for c, m in zip(cases, model):
+            ctx.evaluations += 1
+            try:
+                p = subprocess.run([exe], input="\n".join(c) + "\n", capture_output=True, text=True, errors="replace", timeout=60)
+                got = p.stdout.split("\n"); rc = p.returncode; err = p.stderr
+            except subprocess.TimeoutExpired:
+                got, rc, err = [], -999, "TIMEOUT"
+            got = [g.strip() for g in got]
+            while got and got[-1] == "": got.pop()
+            k = c.index("sc 0 exit")
+            want = [x.strip() for x in m[:k + 1]]
+            if len(got) == k: got.append("-")       # nothing ran at exit
+            if "ndebug" in tag:
+                # gp_heap cannot be replaced in a release build: the releases (r<id>) are not observable, the calls are
+                import re
+                def calls_only(l):
+                    t = l.split()
+                    if t and all(re.fullmatch(r"[cr]\d+", x) for x in t):
+                        return " ".join(x for x in t if x[0] == "c") or "-"
+                    return l
+                got, want = [calls_only(x) for x in got], [calls_only(x) for x in want]
+            if rc != 0 or got != want:
+                first = next((i for i in range(min(len(got), len(want))) if got[i] != want[i]), min(len(got), len(want)))
+                ctx.add_witness("main-thread-exit[%s]" % tag, c, got, want,
+                                "main thread returns from main() with live scopes (%s build): %s; expected %s%s"
+                                % ("-DNDEBUG" if "ndebug" in tag else "default", (got[first] if first < len(got) else "nothing")[:200],
+                                   (want[first] if first < len(want) else "nothing")[:200],
+                                   "" if rc == 0 else " (exit status %s: %s)" % (rc, err[-300:])))
+
+
 def gen_case(r, deep):
     nth = 1 if r.random() < 0.7 else r.randrange(2, 5)
     per = [gen_thread(r, t, deep) for t in range(nth)]
@@ -154,3 +210,5 @@ def run(ctx):
     depths = [max((sum(1 for l in c[:i] if " begin " in l) for i in range(len(c))), default=0) for c in cases[:50]]
     ctx.extra_cov["max_begins_in_sampled_cases"] = max(depths) if depths else 0
     ctx.correspond("scope-scripts", exe, cases, oracle=oracle, nontrivial=lambda c: len(c) >= 4, timeout=1200)
+    if ctx.replay_cases is None:
+        main_thread_exit(ctx)
